@@ -39,6 +39,8 @@ def list_jobs():
     from . import graph_jobs, lookup_jobs
     jobs += graph_jobs.list_jobs()
     jobs += lookup_jobs.list_jobs()
+    from . import validator_jobs
+    jobs += validator_jobs.list_jobs()
     return jobs
 
 
@@ -208,6 +210,9 @@ def run(job_id, st, rlimit):
     if job_id.startswith("effects:"): return effects_job(job_id, st, rlimit)
     if job_id.startswith("chain:"): return chain_job(job_id, st, rlimit)
     if job_id.startswith("timebuilder:"): return timebuilder_job(job_id, st, rlimit)
+    if job_id.startswith("validator:"):
+        from . import validator_jobs
+        return validator_jobs.run(job_id, st, rlimit)
     if job_id.startswith("lookup:"):
         from . import lookup_jobs
         return lookup_jobs.run(job_id, st, rlimit)
